@@ -30,10 +30,38 @@ from pyvc.run import Job
 from pyvc.sym import SymBytes, SymInt, SymReader, is_sym, mk_int, zint
 from spec import dwarf_std
 
+from pyvc.absseq import AbsSeq, PrefixMarker, represents
+
 from . import dep_leb128
 
 PROPERTY = "C14"
 MODULES = [_encodable, _encoders, cfi, expr, leb128]
+
+
+EXPRLEN = z3.Function("exprloc_len", z3.IntSort(), z3.IntSort())
+EXPRBYTES = z3.Function("exprloc_bytes", z3.IntSort(), z3.ArraySort(z3.IntSort(), z3.IntSort()))
+_REAL_EXPR = (cfi._ExprEncoder.encode, cfi._ExprEncoder.decode)
+
+
+def _expr_encode_stub(self, value, byteorder, ptr_size):
+    """contract of cfi._ExprEncoder.encode (proved in contracts/c14_expr.py): ULEB(len E) ++ E, at least one byte"""
+    if isinstance(value, AbsSeq):
+        n = EXPRLEN(value.sid)
+        core.CUR.assume(n >= 1)
+        return SymBytes.encoded(("expr", value, byteorder, ptr_size), mk_int(n), EXPRBYTES(value.sid))
+    return _REAL_EXPR[0](self, value, byteorder, ptr_size)
+
+
+def _expr_decode_stub(self, io, byteorder, ptr_size):
+    """contract of cfi._ExprEncoder.decode: inverse of encode for the same byte order / pointer size"""
+    if isinstance(io, SymReader):
+        ch = io.at_chunk()
+        if ch is not None and ch.kind == "enc" and ch.tag[0] == "expr":
+            if (ch.tag[2], ch.tag[3]) != (byteorder, ptr_size):
+                raise Unsupported("exprloc decoded with other parameters than it was encoded with")
+            io.take_chunk()
+            return [PrefixMarker(ch.tag[1], ch.tag[1].n)], ch.length()
+    return _REAL_EXPR[1](self, io, byteorder, ptr_size)
 
 
 class setup:
@@ -42,9 +70,12 @@ class setup:
         self.b = dep_leb128.stubs()
         self.a.__enter__()
         self.b.__enter__()
+        cfi._ExprEncoder.encode = _expr_encode_stub
+        cfi._ExprEncoder.decode = _expr_decode_stub
         return self
 
     def __exit__(self, *e):
+        cfi._ExprEncoder.encode, cfi._ExprEncoder.decode = _REAL_EXPR
         self.b.__exit__(*e)
         self.a.__exit__(*e)
         return False
@@ -138,6 +169,13 @@ def check_std(ctx, tag, enc, first_byte_base, count, forms, vals, byteorder, ptr
             pos[0] += 1
             ctx.prove(tag + "/STD/operand-%s" % f, z3.BoolVal(c.tag[0] == f) if not is_sym(c.tag[1]) and not is_sym(v)
                       else z3.And(z3.BoolVal(c.tag[0] == f), zint(c.tag[1]) == zint(v)))
+        elif f == "expr":
+            if pos[1] != 0 or pos[0] >= len(chunks) or chunks[pos[0]].kind != "enc" or chunks[pos[0]].tag[0] != "expr":
+                ctx.fail(tag + "/STD/operand-expr", "operand is not an exprloc chunk")
+                return
+            c = chunks[pos[0]]
+            pos[0] += 1
+            ctx.prove(tag + "/STD/operand-expr", z3.BoolVal(c.tag[1] is v and (c.tag[2], c.tag[3]) == (byteorder, ptr_size)))
         else:
             raise Unsupported("form " + f)
     ctx.prove(tag + "/STD/no-trailing-bytes", z3.BoolVal(pos[0] >= len(chunks)))
@@ -170,7 +208,7 @@ def make_class_harness(which, cls, first_bytes, byteorder, ptr_size):
         ctx.prove(tag + "/REG/operand-count", z3.BoolVal(len(sforms) == len(fes)))
         if len(sforms) != len(fes):
             return
-        vals = [SymInt(ctx.int("x_" + n)) for n in names]
+        vals = [AbsSeq(ctx, "x_" + n) if f == "expr" else SymInt(ctx.int("x_" + n)) for n, f in zip(names, sforms)]
         # ---- construction
         try:
             obj = cls(**dict(zip(names, vals)))
@@ -193,6 +231,7 @@ def make_class_harness(which, cls, first_bytes, byteorder, ptr_size):
         ctx.cover("encode-ok")
         ctx.prove(tag + "/ACC/encode-accepts-only-representable", std_valid(sforms, scount, vals, ptr_size))
         enc = SymBytes.of(enc)
+        ctx.prove(tag + "/STD/at-least-the-opcode-byte", enc.zlen() >= 1)
         check_std(ctx, tag, enc, sbase, scount, sforms, vals, byteorder, ptr_size)
         # ---- decode(encode(x) ++ tail)
         tail = SymBytes.sym(SymInt(ctx.int("tail_len")), ctx.array("tail"))
@@ -208,7 +247,9 @@ def make_class_harness(which, cls, first_bytes, byteorder, ptr_size):
         ctx.cover("decode-ok")
         ctx.prove(tag + "/RT/same-class", z3.BoolVal(type(dobj) is cls))
         if type(dobj) is cls:
-            ctx.prove(tag + "/RT/equal-operands", z3.And([zint(getattr(dobj, n)) == zint(v) for n, v in zip(names, vals)] + [z3.BoolVal(True)]))
+            ctx.prove(tag + "/RT/equal-operands", z3.And([
+                represents(getattr(dobj, n), v, v.n) if isinstance(v, AbsSeq) else zint(getattr(dobj, n)) == zint(v)
+                for n, v in zip(names, vals)] + [z3.BoolVal(True)]))
         ctx.prove(tag + "/RT/consumes-exactly-its-bytes", zint(nread) == enc.zlen())
         ctx.prove(tag + "/RT/reader-position", zint(rd.consumed) == enc.zlen())
 
@@ -223,7 +264,14 @@ def replay_class(which, cls, byteorder, ptr_size):
     def replay(clause, model):
         import io
         vals = {}
-        for n in names:
+        pool = [expr.OpDup(), expr.OpLit(5), expr.OpConst2S(-2), expr.OpBReg(3, -9), expr.OpConstU(300)]
+        for (fld, e) in cls._fields_and_encoders():
+            n = fld.name
+            if type(e).__name__ == "_ExprEncoder":
+                k = [key for key in model if key.startswith("x_" + n + "_len!")]
+                cnt = min(model[k[0]] if k else 1, 40)
+                vals[n] = [pool[i % len(pool)] for i in range(cnt)]
+                continue
             k = [key for key in model if key.startswith("x_" + n + "!")]
             vals[n] = model[k[0]] if k else 0
         tail = b"\x00\x01"
@@ -262,6 +310,8 @@ def replay_class(which, cls, byteorder, ptr_size):
 
 def _native_valid(forms, count, vals, ptr_size):
     for f, v in zip(forms, vals):
+        if f == "expr":
+            continue
         lo, hi = dwarf_std.form_range(f, count, ptr_size)
         if (lo is not None and v < lo) or (hi is not None and v >= hi):
             return False
@@ -282,6 +332,9 @@ def _native_std(base, count, forms, vals, byteorder, ptr_size):
             out += dwarf_std.uleb(v)
         elif f == "sleb":
             out += dwarf_std.sleb(v)
+        elif f == "expr":
+            e = b"".join(bytes(o.encode(byteorder, ptr_size)) for o in v)     # operations are proved separately
+            out += dwarf_std.uleb(len(e)) + list(e)
     return bytes(out)
 
 
@@ -316,9 +369,6 @@ def jobs(tier="quick", seed=0):
         yield Job("C14/registry/%s" % which, registry_harness(which), kind="E",
                   func="gtirb_rewriting.dwarf._encodable:_OpcodeEncodable.decode")
         for cls, fbs in seen.items():
-            fes = list(cls._fields_and_encoders())
-            if any(type(e).__name__ == "_ExprEncoder" for _, e in fes):
-                continue            # handled by contracts/c14_expr.py (loop invariants)
             for bo in ("little", "big"):
                 for ps in (4, 8):
                     yield Job("C14/codec/%s/%s/%s/%d" % (which, cls.__name__, bo, ps),
